@@ -24,7 +24,9 @@ ASSUMPTIONS = ["a LIKE body stands where the column list would be: clauses are g
 MIN_EVENTS = {"statements": 100, "run_return": 100}
 
 LAST = ["b varchar(10)", "b varchar(10) NOT NULL", "b varchar(10) DEFAULT 'x'", "b int PRIMARY KEY", "b decimal(10,2) UNIQUE", "b int REFERENCES p (k)",
-        "b date,\n  PRIMARY KEY (a)", "b int,\n  CONSTRAINT u UNIQUE (a, b)", "b int DEFAULT 5 NOT NULL"]
+        "b date,\n  PRIMARY KEY (a)", "b int,\n  CONSTRAINT u UNIQUE (a, b)", "b int DEFAULT 5 NOT NULL",
+        # a double-quoted literal with an apostrophe inside (an odd number of ' in the statement before the clauses)
+        "b varchar(20) DEFAULT \"o'clock\"", "b varchar(20) DEFAULT \"it's\" NOT NULL"]
 
 
 # SSMS-style body: the key constraint carries its own WITH (...) ON [filegroup]; a table-level ON / WITH after the list must still win
@@ -175,6 +177,10 @@ def check_case(ctx, case):
     ctx.evaluated(2)
     mode, clauses = case["mode"], case["clauses"]
     base_ddl, full_ddl = build(case["last"], clauses, case.get("body"), case.get("comments"))
+    if case.get("one_line") and not case.get("comments"):
+        # the whole statement on one physical line (what a line-wise pre-processor sees before a clause is then the column list)
+        base_ddl, full_ddl = base_ddl.replace("\n", " ").rstrip() + "\n", full_ddl.replace("\n", " ").rstrip() + "\n"
+        ctx.obs["one_line_statements"] += 1
     if case.get("body"):
         ctx.obs["like_body_cases"] += 1
     ctx.nontrivial_case(digest(full_ddl + mode))
@@ -281,6 +287,8 @@ def run_shard(ctx):
             kept = [c for c in clauses if ok_after_like(d, c)]
             if kept:
                 case = dict(case, clauses=kept, body=rng.choice(sorted(LIKE_BODIES)), gen="random_like_body")
+        if j % 3 == 2 and j % 4 != 1:
+            case["one_line"] = True
         if j % 4 == 1:
             # a trailing comment on clause lines (an apostrophe in its text only on lines without a literal: the pinned comment splitter is
             # not quote-aware on lines that hold one)
